@@ -51,6 +51,8 @@ class C15(Check):
             # one fixed experiment per listed known finding
             dict(base, kind="fixed:assert-tuple-last-statement", include=["pixee:python/fix-assert-tuple"],
                  world_spec={"files": [{"path": "pkg/t.py", "raw": {"t": 'def f():\n    assert (1,)\n\n    assert ("one", Exception, [])\n'}}]}),
+            dict(base, kind="fixed:source-write-fails", include=inc, world_spec={"files": [f1, f2]},
+                 seam_faults=[{"kind": "write-eacces", "file": "pkg/a.py", "codemod_index": 0, "nth": 0}]),
             dict(base, kind="fixed:poetry-no-deps", include=["pixee:python/url-sandbox"],
                  world_spec={"files": [{"path": "pkg/a.py", "snippets": [G.pick_snippet(__import__("random").Random(1), "pixee:python/url-sandbox")["idx"]], "layout": {}},
                                        {"path": "pyproject.toml", "manifest": next(m["idx"] for m in W.manifests() if m["name"] == "pyproject-poetry-no-deps")}]}),
@@ -70,7 +72,9 @@ class C15(Check):
             for _ in range(rng.randint(1, 2)):
                 exp["content_faults"].append({"kind": rng.choice(CONTENT_FAULTS), "donor": rng.choice(pys), "name": f"bad{rng.randrange(99)}.py"})
         elif r < 0.45 and pys:
-            fk = rng.choice(["vanish-before-read", "read-eio", "read-eacces", "transform-raise", "node-raise"])
+            # "write-eacces": the write-back of a rewritten source fails. On the pinned tree that aborts the run (exit != 0,
+            # C15 is then silent); a tree that swallows the error must still produce a consistent report
+            fk = rng.choice(["vanish-before-read", "read-eio", "read-eacces", "transform-raise", "node-raise", "write-eacces", "write-eacces"])
             exp["seam_faults"].append({"kind": fk, "file": rng.choice(pys), "codemod_index": rng.randrange(len(exp["include"])),
                                        "nth": 1 if fk != "node-raise" else rng.choice([1, 5, 20])})
         exp["sched"] = G.rand_sched(rng, len(exp["world_spec"]["files"]))
@@ -88,8 +92,10 @@ class C15(Check):
         plan = []
         for sf in exp.get("seam_faults", []):
             op = {"vanish-before-read": "open-read", "read-eio": "open-read", "read-eacces": "open-read",
-                  "transform-raise": "transform", "node-raise": "node"}[sf["kind"]]
-            plan.append({"op": op, "path": "<T>/" + sf["file"], "codemod_index": sf["codemod_index"], "nth": sf["nth"], "kind": sf["kind"]})
+                  "transform-raise": "transform", "node-raise": "node", "write-eacces": "open-write"}[sf["kind"]]
+            kind = "open-eacces" if sf["kind"] == "write-eacces" else sf["kind"]
+            plan.append({"op": op, "path": "<T>/" + sf["file"], "codemod_index": sf["codemod_index"] if sf["kind"] != "write-eacces" else None,
+                         "nth": sf["nth"] if sf["kind"] != "write-eacces" else 0, "kind": kind})
         if exp.get("include") is None:
             results, ropts = W.default_delivery(meta)
             argv = ["<T>", "--output", "<O>/report.codetf"] + ropts
